@@ -231,33 +231,66 @@ func Gen12(t *rapid.T) Case12 {
 	} else {
 		c.Start = B(gen.Pick(t, "start", c12Starts))
 	}
-	n := rapid.IntRange(1, 12).Draw(t, "nops")
 	spOps := []string{"append", "append", "delete", "set", "sort", "sortabs", "get", "has"}
+	genSP := func() Op12 {
+		o := SPOp{Op: gen.Pick(t, "spop", spOps)}
+		switch o.Op {
+		case "append", "set":
+			o.Name, o.Value = B(gen.Pick(t, "name", c11Names)), B(gen.Pick(t, "value", c11Values))
+		case "delete", "get", "has":
+			o.Name = B(gen.Pick(t, "name", c11Names))
+		}
+		return Op12{Kind: "sp", Handle: rapid.IntRange(0, 3).Draw(t, "handle"), SP: o}
+	}
+	genSetSearch := func() Op12 {
+		v := gen.Pick(t, "search", c12Search)
+		if rapid.IntRange(0, 5).Draw(t, "searchSoup") == 0 {
+			v = genQuery(t)
+		}
+		return Op12{Kind: "setsearch", Value: B(v)}
+	}
+	genSetter := func() Op12 {
+		w := c12OtherSetters[rapid.IntRange(0, len(c12OtherSetters)-1).Draw(t, "setter")]
+		return Op12{Kind: "setter", Setter: w, Value: B(gen.SetterValue(t, "value", w))}
+	}
+	if rapid.IntRange(0, 1).Draw(t, "shaped") == 0 {
+		// the shape the statement singles out: a handle obtained before a SetSearch is used after it
+		c.Ops = append(c.Ops, Op12{Kind: "fetch"})
+		for i, n := 0, rapid.IntRange(0, 3).Draw(t, "pre"); i < n; i++ {
+			c.Ops = append(c.Ops, genSP())
+		}
+		c.Ops = append(c.Ops, genSetSearch())
+		if rapid.IntRange(0, 2).Draw(t, "refetch") == 0 {
+			c.Ops = append(c.Ops, Op12{Kind: "fetch"})
+		}
+		for i, n := 0, rapid.IntRange(1, 4).Draw(t, "post"); i < n; i++ {
+			switch rapid.IntRange(0, 5).Draw(t, "postkind") {
+			case 0:
+				c.Ops = append(c.Ops, genSetSearch())
+			case 1:
+				c.Ops = append(c.Ops, genSetter())
+			default:
+				o := genSP()
+				o.Handle = 0
+				c.Ops = append(c.Ops, o)
+			}
+		}
+		return c
+	}
+	n := rapid.IntRange(1, 12).Draw(t, "nops")
 	fetched := false
 	for i := 0; i < n; i++ {
 		k := rapid.IntRange(0, 9).Draw(t, "kind")
 		switch {
-		case k <= 1 || (!fetched && k <= 4):
+		case k == 0 || (!fetched && k <= 4):
 			c.Ops = append(c.Ops, Op12{Kind: "fetch"})
 			fetched = true
 		case k <= 5:
-			o := SPOp{Op: gen.Pick(t, "spop", spOps)}
-			switch o.Op {
-			case "append", "set":
-				o.Name, o.Value = B(gen.Pick(t, "name", c11Names)), B(gen.Pick(t, "value", c11Values))
-			case "delete", "get", "has":
-				o.Name = B(gen.Pick(t, "name", c11Names))
-			}
-			c.Ops = append(c.Ops, Op12{Kind: "sp", Handle: rapid.IntRange(0, 3).Draw(t, "handle"), SP: o})
+			c.Ops = append(c.Ops, genSP())
 		case k <= 7:
-			v := gen.Pick(t, "search", c12Search)
-			if rapid.IntRange(0, 5).Draw(t, "searchSoup") == 0 {
-				v = genQuery(t)
-			}
-			c.Ops = append(c.Ops, Op12{Kind: "setsearch", Value: B(v)})
+			c.Ops = append(c.Ops, genSetSearch())
 		default:
-			w := c12OtherSetters[rapid.IntRange(0, len(c12OtherSetters)-1).Draw(t, "setter")]
-			c.Ops = append(c.Ops, Op12{Kind: "setter", Setter: w, Value: B(gen.SetterValue(t, "value", w))})
+			c.Ops = append(c.Ops, genSetter())
 		}
 	}
 	return c
